@@ -70,7 +70,7 @@ class Class(abc.ABCMeta):
         @classmethod
         def is_stateful(cls) -> bool:
             attr = cls.Mapping[flow.Actor.train.__name__]
-            return callable(attr) or hasattr(cls.Origin, attr)
+            return callable(attr) or callable(getattr(cls.Origin, attr, None))
 
         def __getattribute__(self, item):
             if item not in {'Origin', 'Mapping', '_origin'}:
